@@ -66,6 +66,8 @@ class RobotModel:
         self.mode_nt = "<unset>"
         self.vals = None           # (comp, attr) -> value once the components are set up
         self.autosel = cfg.get("auto_selector_initial")
+        self.sel_pending = None    # chooser selection written by the dashboard ...
+        self.sel = None            # ... and taken into account at the next SmartDashboard.updateValues()
         self.fb_nt = {}
         self.faults_fired = 0
         self.p = period_us(cfg)
@@ -120,6 +122,8 @@ class RobotModel:
                     self.vals[(a[1], a[2])] = a[3]
             elif k == "autosel":
                 self.autosel = a[1]
+            elif k == "select":
+                self.sel_pending = a[1]
             elif k == "end":
                 self.done = True
             elif k == "raise":
@@ -201,6 +205,8 @@ class RobotModel:
                     self.ds["fms"] = bool(a[3])
             elif k == "autosel":
                 self.autosel = a[1]
+            elif k == "select":
+                self.sel_pending = a[1]
             elif k == "end":
                 self.done = True
             elif k == "assign":
@@ -269,7 +275,10 @@ class RobotModel:
 
     def _periodics(self):
         self._feedbacks()
-        self.guarded("robot.robotPeriodic")
+        n = self.guarded("robot.robotPeriodic")
+        if n is not None and self.sel_pending is not None:
+            # the default robotPeriodic updates SmartDashboard: a chooser selection takes effect here
+            self.sel = self.sel_pending
 
     def _enabled_periodic(self):
         for c in self.comps:
@@ -315,6 +324,8 @@ class RobotModel:
         names = [m["name"] for m in self.cfg["modes"]]
         if self.autosel is not None and self.autosel in names:
             return self.autosel
+        if self.sel is not None:
+            return self.sel if self.sel in names else None
         for m in self.cfg["modes"]:
             if m.get("default"):
                 return m["name"]
